@@ -263,6 +263,8 @@ fn nak_frame() -> impl Strategy<Value = Vec<u8>> {
     let big = prop_oneof![
         3 => (0u32..0x7fff_0000, 900u32..1300).prop_map(|(s, n)| vec![s | 0x8000_0000, s + n]),
         1 => (0u32..0x7fff_ffff).prop_map(|s| vec![s | 0x8000_0000, 0x7fff_ffff]),
+        // short ranges that end at (or, with the top bit set in the end word, beyond) the top of the 31-bit space
+        2 => (0u32..40, prop_oneof![Just(0x7fff_ffffu32), Just(0xffff_ffff), Just(0x8000_0000), Just(0x7fff_fffe)]).prop_map(|(n, e)| vec![(0x7fff_ffff - n) | 0x8000_0000, e]),
     ];
     let bad = prop_oneof![
         (edge_u32(), edge_u32()).prop_map(|(s, e)| vec![s | 0x8000_0000, e | 0x8000_0000]),
@@ -375,7 +377,7 @@ fn built_strategy() -> impl Strategy<Value = Built> {
             rate: f[5],
             now,
         }),
-        vec(edge_u32(), 0..300).prop_map(Built::Ack),
+        prop_oneof![3 => vec(edge_u32(), 0..300), 1 => vec(edge_u32(), 370..380), 1 => vec(edge_u32(), 300..2000)].prop_map(Built::Ack),
     ]
 }
 
